@@ -1293,7 +1293,7 @@ func GetProofSubset(proof Proof, hashes []Hash, wants []uint64, numLeaves uint64
 	}
 
 	// Match up the targets with their respective hashes.
-	targetHashesWithPos := toHashAndPos(proofTargetsCopy, hashes)
+	targetHashesWithPos := toHashAndPos(proof.Targets, hashes)
 
 	// calculateHashes provides us with all the intermediate calculated nodes in the tree.
 	// Need to sort the returned positions and hashes as they aren't sorted.
